@@ -135,6 +135,16 @@ def run_case(arg):
         devbs = r.choice([None, 1024, 8192])
         tree, files = make_tree(r, bs)
         sortf, rules = make_sort_file(r, files)
+        if idx % 8 == 5:
+            # directed: the only tail ends in the image are zero bytes kept by nosparse, so a fragment block is all zero
+            tree = {b"": Node("dir", 0o755), b"blk": Node("file", 0o644, data=[("rep", b"blk", bs * 2)]),
+                    b"zt": Node("file", 0o644, data=[("zero", bs * r.choice([0, 1, 2]) + r.choice([1, 17, bs - 1]))]),
+                    b"zt2": Node("file", 0o644, data=[("rep", b"zt2", bs), ("zero", r.choice([5, 17]))]),
+                    b"dup1": Node("file", 0o644, data=[("rep", b"duplicate-content", bs * 2)]),
+                    b"zz_dup2": Node("file", 0o644, data=[("rep", b"duplicate-content", bs * 2)])}
+            files = [b"blk", b"zt", b"zt2", b"dup1", b"zz_dup2"]
+            sortf = b"%d [nosparse] zt\n%d [glob,nosparse] zt?\n" % (r.choice([-3, 0, 5]), r.choice([-3, 0, 5]))
+            rules = [(int(sortf.split()[0]), None, b"zt", {"nosparse"}), (int(sortf.split(b"\n")[1].split()[0]), "glob", b"zt?", {"nosparse"})]
         assign = spec_assign(files, rules)
         with core.Scratch("c17") as work:
             root = os.path.join(work, "in")
@@ -155,8 +165,12 @@ def run_case(arg):
             if r0.rc != 0 or r1.rc != 0:
                 oc.violate("directive:pack-fails", "rc=%s/%s %s" % (r0.rc, r1.rc, (r0.err + r1.err)[-300:]), {"sort.txt": sortf})
                 return oc
-            im0 = sqfsimg.parse(open(o0, "rb").read())
-            im1 = sqfsimg.parse(open(o1, "rb").read())
+            try:
+                im0 = sqfsimg.parse(open(o0, "rb").read())
+                im1 = sqfsimg.parse(open(o1, "rb").read())
+            except sqfsimg.ParseError as ex:
+                oc.violate("directive:c03:unparseable-image", str(ex)[:300], {"sort.txt": sortf})
+                return oc
             for rule, where, detail in im1.problems:
                 oc.violate("directive:c03:" + rule, "%s %s" % (where, detail), {"sort.txt": sortf})
             # tree and contents unchanged
